@@ -7,6 +7,14 @@ PKGS = {
 }
 
 PROPS = {
+    "C15": {
+        "harnesses": [
+            {"pkg": "bscript", "name": "VH_C15_RoundTrip"},
+            {"pkg": "bscript", "name": "VH_C15_Reject"},
+            {"pkg": "bscript", "name": "VH_C15_Edits", "quick": {"params": {"ADDRS": 1}}, "thorough": {"params": {"ADDRS": 3}}},
+        ],
+        "assumptions": [],
+    },
     "C11": {
         "harnesses": [
             {"pkg": "bt", "name": "VH_C11_Accounting", "opts": {"int": True}, "quick": {"params": {"IN": 1, "OUT": 2, "S": 2, "DEN": 0}}, "thorough": {"params": {"IN": 2, "OUT": 3, "S": 3, "DEN": 1}}},
